@@ -81,7 +81,7 @@ __CPROVER_ensures(__CPROVER_return_value == (this_->_sz == 0 ? 1 : 0))
 void qi_ctor(QI *this_)
 __CPROVER_requires(cv_exc_pending == 0 && __CPROVER_is_fresh(this_, sizeof(*this_)) && LOCK_IDLE && gh_q_lock_required == 0)
 __CPROVER_assigns(__CPROVER_object_whole(this_), IQ_STATE, WQ_STATE)
-__CPROVER_ensures(cv_exc_pending == 0 && iq_head == iq_tail && wq_head == wq_tail && wq_slot_pos == QM_NOPOS)     /* starts empty: no item, nobody waiting */
+__CPROVER_ensures(cv_exc_pending == 0 && iq_head == 0 && iq_tail == 0 && wq_head == 0 && wq_tail == 0 && wq_slot_pos == QM_NOPOS)     /* starts empty: no item, nobody waiting (positions count from 0) */
 __CPROVER_ensures(IQ_INV && WQ_INV && INV9)
 ;
 #endif
@@ -183,7 +183,7 @@ __CPROVER_ensures(gh_pr.n == 0 && gh_pr.lost == 0)
 void qv_ctor(QV *this_)
 __CPROVER_requires(cv_exc_pending == 0 && __CPROVER_is_fresh(this_, sizeof(*this_)) && LOCK_IDLE && gh_q_lock_required == 0)
 __CPROVER_assigns(__CPROVER_object_whole(this_), WQ_STATE)
-__CPROVER_ensures(cv_exc_pending == 0 && CNT(this_) == 0 && wq_head == wq_tail && wq_slot_pos == QM_NOPOS && WQ_INV)
+__CPROVER_ensures(cv_exc_pending == 0 && CNT(this_) == 0 && wq_head == 0 && wq_tail == 0 && wq_slot_pos == QM_NOPOS && WQ_INV)
 ;
 #endif
 
